@@ -1,7 +1,7 @@
 (* Shared engine cases: the model evaluated on what the real code ran on, and the property
    predicates (C01 C04 C06 C07 C13 C20) evaluated on what the real code returned. *)
 From Coq Require Import List String ZArith NArith Bool Floats.
-From WTF Require Import Model.Tfidf Model.Validate Model.Text Model.Platform Model.Engine Check.Render Check.EngineTypes.
+From WTF Require Import Model.Tfidf Model.Fuzzy Model.Validate Model.Text Model.Platform Model.Engine Check.Render Check.EngineTypes.
 Import ListNotations.
 Open Scope string_scope.
 
@@ -60,9 +60,22 @@ Definition tfidf_agrees (c : ecase) : bool :=
         (to_eres (tfidf_search (k_doc_toks c) (k_logt c) (k_q_toks c) (Z.of_nat (List.length (k_cmds c)) + 1)))
   end.
 
+(* the raw matcher scores the code's library computed for this query, against the transcription Model/Fuzzy.v
+   (ASCII query and texts; other cases keep the library's score as an oracle) *)
+Definition fuzzy_agrees (c : ecase) : bool :=
+  negb (Fuzzy.ascii (k_q c)) ||
+  list_eqb2 (fun (d : command) (o : option Z) =>
+      let t := (c_cmd d ++ [32%N] ++ c_desc d)%list in
+      negb (Fuzzy.ascii t) ||
+      match raw_score (k_q c) t with
+      | Some r => option_eqb Z.eqb r o
+      | None => false
+      end) (k_cmds c) (k_fuzzy c).
+
 (* model vs. implementation on the main run and on every paired run *)
 Definition mismatch (c : ecase) : option string :=
   if negb (tfidf_agrees c) then Some "tfidf" else
+  if negb (fuzzy_agrees c) then Some "fuzzy_matcher" else
   let o := k_opts c in
   let chk (name : string) (oo : options) (obs : option (list eres)) :=
       match obs with
